@@ -28,6 +28,9 @@ CLAIMED = {
  'C08': dict(text="Over R, for every configuration with positive variances and hazard in (0,1) and every stream: the model's parameter lists are the conjugate posterior mean/precision of the k newest values; its log message is ln of the Adams-MacKay joint P(r_t=k, x_1..t) defined non-incrementally in linear space; exp of its row is the exact run-length posterior; every row sums to one; predicted mean/variance are the posterior-weighted mixtures of the updated parameters; from min_num_instances on drift <-> the first arg-max of the posterior is not t, and no drift before. Model tied to the code per run (rows of log_r, predictions, verdict) on Gaussian streams with shifts, priors/variances/hazards on a grid incl. extremes.",
              note="Trusted: Coq kernel/vm_compute; Reals axioms (classical reals, classic, funext); binary64 run uses Gallina exp/ln (~1 ulp), tolerance 1e-8 on probabilities, arg-max ties skipped; SciPy's norm.logpdf/logsumexp are modelled by their formulas.",
              tech="Coq proof (log-space recursion refines the linear-space Adams-MacKay specification; logsumexp/logpdf lemmas with explicit domain safety) + correspondence check"),
+ 'C09': dict(text="Over R, for any kernel with k(x,x)=1 (RBF proved to satisfy it), every chunk_size (None or > 0), any prior detector state and samples of at least 2 points: the chunked kernel sums equal the full double sums, and both MMD.compare after fit (cached reference term) and the stand-alone statistic used by the permutation test return the unbiased estimator of the statement; the fitted path performs the same operations as the static one in every number system (bit-identical in binary64); the estimator is permutation invariant; the streaming detector, over any history of fit/reset/update, raises MissingFitError while unfitted, returns None before window_size values and then exactly the batch value on the last window_size values (ring buffer read in storage order). Tied to the code per run for every chunk size 1..max(n,m)+2, dims 1-4, bandwidth grid, windows 1..10.",
+             note="Trusted: Coq kernel/vm_compute; Reals axioms; binary64 run uses the Gallina exp (~1 ulp), tolerance 1e-9; scipy cdist/rbf formula transliterated.",
+             tech="Coq proof (chunked sum = double sum by induction over chunk lists; ring-buffer refinement + permutation invariance) + correspondence over every chunk size"),
  'C11': dict(text="The model's statistic is the supremum over all reals of |F_ref - F_test| (attained at a sample point); the exact p-value DP equals the count of interleaving words whose maximal deviation reaches the observed one, out of C(n+m,n) equally likely words, for all n, m (no bound); 0 <= p <= 1. IncrementalKSTest: for every reference, window size >= 1 and history of fit/update/reset, update never fails once fitted (MissingFitError exactly when unfitted), returns nothing for the first window_size-1 values and then exactly the batch test on the last window_size values (ring buffer handed over in storage order + permutation invariance). Tied to the code per run: all (n,m) with n+m <= 14 and every attainable d exhaustively, random larger samples with ties, sizes straddling 10 000.",
              note="Trusted: Coq kernel/vm_compute; Reals axioms where samples are reals; above 10 000 values the p-value is SciPy's kstwo.sf (oracle): the model carries the statistic and the check compares batch with incremental there.",
              tech="Coq proof (DP = enumeration of interleavings by induction on n+m; ring-buffer refinement; permutation invariance) + exhaustive small-size and random correspondence"),
